@@ -321,6 +321,10 @@ pub fn install_panic_hook() {
                 }
             }
         }
+        if func == "?" {
+            // not inside the compiler: a bug of the harness itself, never a verdict
+            eprintln!("MACHINERY-ERROR: harness panic at {}: {}", loc, msg);
+        }
         LAST_PANIC.with(|p| *p.borrow_mut() = Some((format!("{} in {}", loc, func), msg)));
     }));
 }
